@@ -5,6 +5,7 @@ and generating responses, including Titan upload handlers.
 """
 
 import os
+import secrets
 from abc import ABC, abstractmethod
 from pathlib import Path
 from typing import TYPE_CHECKING
@@ -393,15 +394,31 @@ class FileUploadHandler(UploadHandler):
             )
 
         # 6. Save file: write next to the target and rename over it, so that a
-        # failed write never damages an existing file
-        temp = target.with_name(f".{target.name}.{os.getpid()}.upload")
+        # failed write never damages an existing file. The temporary file is
+        # created exclusively (never an existing entry, never through a
+        # symlink) and everything created here is removed again on failure.
+        temp = target.with_name(f".{secrets.token_hex(8)}.upload")
+        created_dirs: list[Path] = []
+        temp_created = False
         try:
-            target.parent.mkdir(parents=True, exist_ok=True)
+            ancestor = target.parent
+            while not ancestor.exists():
+                created_dirs.append(ancestor)  # deepest first
+                ancestor = ancestor.parent
             try:
-                temp.write_bytes(request.content)
+                target.parent.mkdir(parents=True, exist_ok=True)
+                with temp.open("xb") as f:
+                    temp_created = True
+                    f.write(request.content)
                 os.replace(temp, target)
             except BaseException:
-                temp.unlink(missing_ok=True)
+                if temp_created:
+                    temp.unlink(missing_ok=True)
+                for directory in created_dirs:
+                    try:
+                        directory.rmdir()
+                    except OSError:
+                        pass
                 raise
 
             return GeminiResponse(
